@@ -198,9 +198,9 @@ where
     #[pin]
     inner: InnerCheckoutConnecting<T, P, B>,
     connection: Option<P::Connection>,
-    /// Did this checkout mark its connection attempt as in progress in the pool?
-    /// Only then is it the one to clear that mark again.
-    owns_attempt: bool,
+    /// The id of the connection attempt this checkout marked as in progress in
+    /// the pool, if it did. Only then is it the one to clear that mark again.
+    owns_attempt: Option<usize>,
     meta: ConnectorMeta,
     #[cfg(debug_assertions)]
     id: CheckoutId,
@@ -285,7 +285,7 @@ where
             waiter: Waiting::NoPool,
             inner: InnerCheckoutConnecting::Connecting(connector),
             connection: None,
-            owns_attempt: false,
+            owns_attempt: None,
             meta: ConnectorMeta::new(),
             #[cfg(debug_assertions)]
             id,
@@ -294,7 +294,7 @@ where
 
     /// Mark this checkout as the one which registered its connection attempt
     /// as in progress with the pool.
-    pub(super) fn owning_attempt(mut self, owns_attempt: bool) -> Self {
+    pub(super) fn owning_attempt(mut self, owns_attempt: Option<usize>) -> Self {
         self.owns_attempt = owns_attempt;
         self
     }
@@ -322,7 +322,7 @@ where
                 waiter: Waiting::Idle(waiter),
                 inner: InnerCheckoutConnecting::Connected,
                 connection,
-                owns_attempt: false,
+                owns_attempt: None,
                 meta,
                 #[cfg(debug_assertions)]
                 id,
@@ -342,7 +342,7 @@ where
                 waiter: Waiting::Idle(waiter),
                 inner,
                 connection,
-                owns_attempt: false,
+                owns_attempt: None,
                 meta,
                 #[cfg(debug_assertions)]
                 id,
@@ -355,7 +355,7 @@ where
                 waiter: Waiting::Connecting(waiter),
                 inner: InnerCheckoutConnecting::Waiting,
                 connection,
-                owns_attempt: false,
+                owns_attempt: None,
                 meta,
                 #[cfg(debug_assertions)]
                 id,
@@ -554,11 +554,11 @@ where
                     tracing::error!(error=%err, "error during delayed drop");
                 }
             });
-        } else if self.owns_attempt {
+        } else if let Some(attempt) = self.owns_attempt {
             // Connection is only cancled when no delayed drop occurs, and only
             // by the checkout which marked it as in progress.
             if let Some(mut pool) = self.pool.lock() {
-                pool.cancel_connection(self.token);
+                pool.cancel_connection(self.token, attempt);
             }
         }
     }
